@@ -69,8 +69,10 @@ void harness(void)
 	POST(verif_msgproc_calls <= 1, "a received request is handed to the message callback at most once");
 	POST(verif_peek_calls + verif_trecv_calls == 1, "one request is taken from the transport per call");
 	if (verif_msgproc_calls == 1) {
+#ifdef V_CONSISTENT
 		COVER(nd_msgproc_rc < 0);
 		COVER(nd_msgproc_rc >= 0 && rc > 0);
+#endif
 		POST(nd_result > 0, "the message callback only runs for a request that was actually received");
 		POST(verif_msgproc_size <= (size_t)nd_result, "the length reported to the message callback never exceeds what was actually received");
 		POST(verif_msgproc_size <= nd_max, "the length reported to the message callback never exceeds the negotiated maximum");
@@ -84,9 +86,13 @@ void harness(void)
 		COVER(nd_result < 0);
 		COVER(nd_result == 0);
 #endif
+#ifdef V_CONSISTENT
 		COVER(nd_result > 0 && nd_id == QB_IPC_MSG_DISCONNECT);
-		POST(verif_reclaim_calls == 0, "nothing is removed from the ring unless the callback ran");
 		POST(nd_result <= 0 || nd_id == QB_IPC_MSG_DISCONNECT, "every received request other than a disconnect reaches the callback");
+#else
+		COVER(nd_result > 0);   /* a request whose header lies about its length is refused, not delivered */
+#endif
+		POST(verif_reclaim_calls == 0, "nothing is removed from the ring unless the callback ran");
 		POST(rc < 0, "no request processed is reported as an error or shutdown");
 		if (nd_result < 0) {
 			POST(rc == (int32_t)nd_result, "a transport error is passed up unchanged");
